@@ -224,6 +224,16 @@ def run_case(case):
                 rec["complete"] = 1 if ds.is_complete else 0
                 if any(0 in b for r in rec["D"] for b in r):
                     raise ValueError("projection")
+            elif reuse["kind"] == "scheme":
+                B0, T0, u0 = reuse["sch0"]
+                ss0 = SS(core.scheme_float(B0, T0, u0))
+                try:
+                    alg.is_scoring_scheme_relevant_when_incomplete_rankings(ss0)
+                    c0 = alg.compute_consensus_rankings(ds, ss0, bool(case["flag"]))
+                    _ = c0.kemeny_score
+                    _ = c0.description()
+                except Exception:
+                    pass
             else:
                 B0, T0, u0 = reuse["sch0"]
                 ds0 = Dataset.from_raw_list(core.Absmap(case["naming"], reuse["D0"]).raw_dataset(reuse["D0"]))
